@@ -17,7 +17,7 @@ RULE = (
     "Hypothesis draws an operator-tree spec from the C02 grammar (variables / md-variables, DenseArray, "
     "TimeDependentDenseArray, Scalar, SparseArray, Projection, ProjectionList, arithmetic nodes, function applications, "
     "time / iterate shifts) on a generated md-grid, plus a single-site mutation. (a) Two independent builds of the same "
-    "spec must have equal _key() and hash(). (b) The mutated tree must have a different key. Mutations: one scalar value (by 1, by a relative 1e-4 / 1e-7 / 1e-12, or by one unit in the last place), "
+    "spec must have equal _key() and hash(). (a') A tree in which one SparseArray leaf is obtained as SparseArray(M^T).T (optionally after the key of SparseArray(M^T) was requested) must have the key of the tree built directly. (b) The mutated tree must have a different key. Mutations: one scalar value (by 1, by a relative 1e-4 / 1e-7 / 1e-12, or by one unit in the last place), "
     "one array entry, one matrix entry / format / shape, variable identity (name, domain, sub-variable order), "
     "operation kind, operand order of a non-commutative node (both op-op and the forward / reflected pair `a o c` vs `c o a` with a Python literal c), one projection range index, one domain index, range "
     "size, DOMAIN SIZE, and projections with > 1000 indices that differ only in the middle of the index array. "
@@ -35,7 +35,7 @@ DESIGN_REF = "DESIGN.md section 4, C45"
 ASSUMPTIONS = ["AbstractFunction keys 'will be covered later' (code comment): function identity is not required to show in keys",
                "time/iterate-shifted copies share the key of the original by design"]
 REQUIRED = {"mut-dense": 0.01, "mut-const": 0.02, "mut-mat": 0.05, "mut-leaf": 0.03, "mut-op": 0.03, "mut-swap": 0.004,
-            "mut-proj": 0.05, "bigproj": 0.015, "mut-side": 0.01, "mut-fine": 0.01}
+            "mut-proj": 0.05, "bigproj": 0.015, "mut-side": 0.01, "mut-fine": 0.01, "via-transpose": 0.1, "via-transpose-hash-first": 0.04}
 
 MUT_PROJ = ["ran", "dom", "rsize", "dsize"]
 
@@ -55,8 +55,19 @@ def strategy(tier):
 
 
 # ------------------------------------------------------------------ operator construction (no evaluation)
-def build_ops(nd, S):
+def build_ops(nd, S, via_t=None):
+    """via_t = (site, hash_first): the site-th SparseArray leaf (in visiting order) is obtained as the transpose of the
+    SparseArray that wraps the transposed matrix - the same leaf by another route - optionally after the key of that
+    first operator has been requested."""
+    counter = [0]
+    return _build(nd, S, via_t, counter)
+
+
+def _build(nd, S, via_t, counter):
     import porepy as pp
+
+    def build_ops(x, S_):  # children by the same route
+        return _build(x, S_, via_t, counter)
 
     F = pp.ad.functions
     k = nd["k"]
@@ -77,7 +88,18 @@ def build_ops(nd, S):
     if k == "mat":
         M = build_sparse(nd["M"])
         a = build_ops(nd["a"], S)
-        return pp.ad.SparseArray(M) @ a if nd["wrap"] == "SparseArray" else M @ a
+        if nd["wrap"] != "SparseArray":
+            return M @ a
+        counter[0] += 1
+        if via_t is not None and (counter[0] - 1) == via_t[0]:
+            first = pp.ad.SparseArray(M.transpose())
+            if via_t[1]:
+                first._key()
+                hash(first)
+            return first.T @ a
+        if via_t is not None:
+            return pp.ad.SparseArray(M.transpose().transpose()) @ a
+        return pp.ad.SparseArray(M) @ a
     if k == "neg":
         return -build_ops(nd["a"], S)
     if k == "shift":
@@ -158,6 +180,18 @@ def _bump(x, v):
         return float(np.nextafter(x, np.inf)), "-fine"
     y = x * (1.0 + [1e-4, 1e-7, 1e-12][how - 2]) if x != 0.0 else [1e-4, 1e-7, 1e-12][how - 2]
     return (y, "-fine") if y != x else (float(np.nextafter(x, np.inf)), "-fine")
+
+
+def _count_sparse(nd):
+    if not isinstance(nd, dict):
+        return 0
+    n = 1 if nd.get("k") == "mat" and nd.get("wrap") == "SparseArray" else 0
+    for v in nd.values():
+        if isinstance(v, dict):
+            n += _count_sparse(v)
+        elif isinstance(v, list):
+            n += sum(_count_sparse(x) for x in v if isinstance(x, dict))
+    return n
 
 
 def mutate(tree, S, site, variant, prefer):
@@ -293,6 +327,20 @@ def check(spec):
     require(k1 == k2, "equal-keys", f"two builds of the same tree have different keys:\n {k1}\n {k2}")
     require(hash(op1) == hash(op2), "equal-hash", "two builds of the same tree have different hashes")
     labels = [f"depth{min(tree_depth(tree), 6)}"]
+    # the same leaf reached by another route: SparseArray(M^T).T is SparseArray(M) (after M^T^T, which may change
+    # the storage format, e.g. nothing for coo, csr <-> csc <-> csr)
+    nsp = _count_sparse(tree)
+    if nsp:
+        site = spec["site"] % nsp
+        hash_first = bool(spec["variant"] % 2)
+        plain = build_ops(copy.deepcopy(tree), S, via_t=(-1, False))
+        routed = build_ops(copy.deepcopy(tree), S, via_t=(site, hash_first))
+        kp, kr = plain._key(), routed._key()
+        require(kp == kr, "equal-keys-via-transpose",
+                f"SparseArray(M.T).T{' (key of the first operator requested before)' if hash_first else ''} and "
+                f"SparseArray(M) give different keys:\n {kr[:300]}\n {kp[:300]}")
+        require(hash(plain) == hash(routed), "equal-hash-via-transpose", "hashes differ")
+        labels += ["via-transpose", "via-transpose-hash-first" if hash_first else "via-transpose-plain"]
     mt, lab = mutate(tree, S, spec["site"], spec["variant"], spec["prefer"])
     nontrivial = tree_depth(tree) >= 2
     if mt is not None:
